@@ -43,6 +43,7 @@ let parse_args (conv : string -> 'a) (toks : string list) : ('a * Rair.nat) list
 
 (* ---- operands given as RAW read/write facts: uses and defs are derived by the extracted RwRuleModel.classify, the idiom
    class by RwRuleModel.idiom_of ("J <tag> <same> <imm|-> <osize> <a64> <n> items", item = R name <11 facts> | U name w | D name w) *)
+let list_groups = ref 0
 let alu_of = function
   | "xor" -> Rair.AXor | "sub" -> Rair.ASub | "or" -> Rair.AOr | "and" -> Rair.AAnd | "add" -> Rair.AAdd | "shl" -> Rair.AShl
   | "shr" -> Rair.AShr | "sar" -> Rair.ASar | "rol" -> Rair.ARol | "ror" -> Rair.ARor | "pxor" -> Rair.VXor | "psubd" -> Rair.VSubD
@@ -52,8 +53,17 @@ let parse_items (conv : string -> 'a) (toks : string list) : ('a * Rair.nat) lis
   | "J" :: tag :: same :: imm :: osize :: a64 :: n :: rest ->
     let id = Rair.idiom_of (alu_of tag) (same <> "0") (if imm = "-" then None else Some (cz_of_string imm)) (nat_of_int (int_of_string osize)) in
     let a64 = a64 <> "0" in
+    let rec lists toks = match toks with
+      | "K" :: n :: rest -> let n = int_of_string n in
+        let g = List.filteri (fun i _ -> i < n) rest and rest = List.filteri (fun i _ -> i >= n) rest in
+        (* only the allocated program has physical registers; the proven side condition Rair.consec_ok decides *)
+        (match g with
+         | x :: _ when String.length x > 0 && x.[0] = 'r' -> if not (Rair.consec_ok (List.map loc_of g)) then raise (Bad ("unmodelled: register list not consecutive: " ^ String.concat "," g))
+         | _ -> ());
+        list_groups := !list_groups + 1; lists rest
+      | _ -> () in
     let rec go k toks us ds =
-      if k = 0 then (List.rev us, List.rev ds) else
+      if k = 0 then (lists toks; (List.rev us, List.rev ds)) else
       match toks with
       | "U" :: a :: w :: rest -> go (k - 1) rest ((conv a, nat_of_int (int_of_string w)) :: us) ds
       | "D" :: a :: w :: rest -> go (k - 1) rest us ((conv a, nat_of_int (int_of_string w)) :: ds)
